@@ -95,21 +95,24 @@ static void option_shapes(long idx, Rng& r) {
     if (len > 38 && (which == 0 || which == 1)) len = 38;          // TCP/IP option space
     if (len > 255 && (which == 2 || which == 4)) len = 255;       // one-octet length fields
     Bytes data = r.bytes(len); std::unique_ptr<PDU> root; std::string what;
+    // one shape in five announces a length field different from the amount of data it carries (the documented 4-argument option constructor):
+    // sizes are accounted from the data, the length octet is whatever was asked for
+    const bool spoof = r.chance(1, 5); const u16 lf = spoof ? (u16)(r.chance(1, 2) ? r.below(256) : (u32)std::max<long>(0, (long)len + (long)r.below(9) - 4)) : (u16)len;
     auto with_payload = [&](PDU* l) { if (payload) { Bytes b = r.bytes(1 + r.below(20)); l->inner_pdu(new RawPDU(b.data(), (u32)b.size())); } };
     try {
         switch (which) {
-            case 0: { TCP* t = new TCP(80, 1025); t->add_option(TCP::option((TCP::OptionTypes)code, data.begin(), data.end())); with_payload(t); root.reset(new EthernetII(EthernetII() / IP("1.2.3.4", "4.3.2.1"))); root->inner_pdu()->inner_pdu(t); what = "TCP"; break; }
-            case 1: { IP* ip = new IP("1.2.3.4", "4.3.2.1"); IP::option_identifier id; memcpy(&id, &code, 1); ip->add_option(IP::option(id, data.begin(), data.end())); with_payload(ip); root.reset(new EthernetII()); root->inner_pdu(ip); what = "IP"; break; }
-            case 2: { DHCP* d = new DHCP(); d->add_option(DHCP::option((DHCP::OptionTypes)code, data.begin(), data.end())); if (r.chance(1, 2)) d->end(); root.reset(new EthernetII(EthernetII() / IP("1.2.3.4", "4.3.2.1") / UDP(67, 68))); root->inner_pdu()->inner_pdu()->inner_pdu(d); what = "DHCP"; break; }
+            case 0: { TCP* t = new TCP(80, 1025); t->add_option(spoof ? TCP::option((TCP::OptionTypes)code, lf, data.begin(), data.end()) : TCP::option((TCP::OptionTypes)code, data.begin(), data.end())); with_payload(t); root.reset(new EthernetII(EthernetII() / IP("1.2.3.4", "4.3.2.1"))); root->inner_pdu()->inner_pdu(t); what = "TCP"; break; }
+            case 1: { IP* ip = new IP("1.2.3.4", "4.3.2.1"); IP::option_identifier id; memcpy(&id, &code, 1); ip->add_option(spoof ? IP::option(id, lf, data.begin(), data.end()) : IP::option(id, data.begin(), data.end())); with_payload(ip); root.reset(new EthernetII()); root->inner_pdu(ip); what = "IP"; break; }
+            case 2: { DHCP* d = new DHCP(); d->add_option(spoof ? DHCP::option((DHCP::OptionTypes)code, lf, data.begin(), data.end()) : DHCP::option((DHCP::OptionTypes)code, data.begin(), data.end())); if (r.chance(1, 2)) d->end(); root.reset(new EthernetII(EthernetII() / IP("1.2.3.4", "4.3.2.1") / UDP(67, 68))); root->inner_pdu()->inner_pdu()->inner_pdu(d); what = "DHCP"; break; }
             case 3: { if (((len + 2) % 8) != 0) { data.resize(((len + 2 + 7) / 8) * 8 - 2); } ICMPv6* c = new ICMPv6(ICMPv6::ROUTER_ADVERT); c->add_option(ICMPv6::option((u8)code, data.begin(), data.end())); root.reset(new EthernetII(EthernetII() / IPv6("::1", "::2"))); root->inner_pdu()->inner_pdu(c); what = "ICMPv6"; break; }
-            case 4: { Dot11Beacon* b = new Dot11Beacon(); b->add_option(Dot11::option((u8)code, data.begin(), data.end())); root.reset(new RadioTap()); root->inner_pdu(b); what = "Dot11Beacon"; break; }
-            case 5: { PPPoE* p = new PPPoE(); p->add_tag(PPPoE::tag((PPPoE::TagTypes)(code * 257), data.begin(), data.end())); root.reset(new EthernetII()); root->inner_pdu(p); what = "PPPoE"; break; }
-            default: { DHCPv6* d = new DHCPv6(); d->add_option(DHCPv6::option((u16)code, data.begin(), data.end())); root.reset(new EthernetII(EthernetII() / IPv6("::1", "::2") / UDP(546, 547))); root->inner_pdu()->inner_pdu()->inner_pdu(d); what = "DHCPv6"; }
+            case 4: { Dot11Beacon* b = new Dot11Beacon(); b->add_option(spoof ? Dot11::option((u8)code, lf, data.begin(), data.end()) : Dot11::option((u8)code, data.begin(), data.end())); root.reset(new RadioTap()); root->inner_pdu(b); what = "Dot11Beacon"; break; }
+            case 5: { PPPoE* p = new PPPoE(); p->add_tag(spoof ? PPPoE::tag((PPPoE::TagTypes)(code * 257), lf, data.begin(), data.end()) : PPPoE::tag((PPPoE::TagTypes)(code * 257), data.begin(), data.end())); root.reset(new EthernetII()); root->inner_pdu(p); what = "PPPoE"; break; }
+            default: { DHCPv6* d = new DHCPv6(); d->add_option(spoof ? DHCPv6::option((u16)code, lf, data.begin(), data.end()) : DHCPv6::option((u16)code, data.begin(), data.end())); root.reset(new EthernetII(EthernetII() / IPv6("::1", "::2") / UDP(546, 547))); root->inner_pdu()->inner_pdu()->inner_pdu(d); what = "DHCPv6"; }
         }
     } catch (const exception_base& e) { cnt("option_shape_refused_by_setter:" + what); return; }
     std::string d = "option-shape class=" + what + " code=" + std::to_string(code) + " len=" + std::to_string(data.size()) + (payload ? " +payload" : " no-payload");
     describe_case(d);
-    cnt("option_shapes:" + what);
+    cnt("option_shapes:" + what); if (spoof) { cnt("option_shapes_with_spoofed_length_field"); d += " length-field=" + std::to_string(lf); describe_case(d); }
     Bytes y = check_packet(root.get(), d);
     if (y.empty()) return;
     // the same shape parsed from bytes, then serialized again
@@ -158,7 +161,7 @@ static void element_shapes(long idx, Rng& r) {
                       root.reset(new EthernetII(EthernetII() / IPv6("::1", "::2"))); root->inner_pdu()->inner_pdu(c); break; }
             default: { IPv6* v6 = new IPv6("::1", "::2"); u32 n = 1 + r.below(4); d = "IPv6 extension headers:";
                       static const IPv6::ExtensionHeader hs[] = {IPv6::HOP_BY_HOP, IPv6::DESTINATION_ROUTING_OPTIONS, IPv6::ROUTING, IPv6::FRAGMENT, IPv6::MOBILITY};
-                      for (u32 i = 0; i < n; ++i) { Bytes b = r.bytes(r.chance(1, 2) ? 6 + 8 * r.below(4) : r.below(30)); v6->add_header(IPv6::ext_header(hs[r.below(5)], b.begin(), b.end())); d += " len=" + std::to_string(b.size()); }
+                      for (u32 i = 0; i < n; ++i) { Bytes b = r.bytes(r.chance(1, 2) ? 6 + 8 * r.below(4) : r.below(30)); if (r.chance(1, 5)) { u16 l2 = (u16)r.below((u32)b.size() + 9); v6->add_header(IPv6::ext_header(hs[r.below(5)], l2, b.begin(), b.end())); d += " len=" + std::to_string(b.size()) + "(length-field " + std::to_string(l2) + ")"; cnt("element_shapes_with_spoofed_length_field"); } else v6->add_header(IPv6::ext_header(hs[r.below(5)], b.begin(), b.end())); d += " len=" + std::to_string(b.size()); }
                       u32 inner = r.below(40); if (inner) { Bytes b = r.bytes(inner); v6->inner_pdu(new RawPDU(b.data(), (u32)b.size())); }
                       root.reset(new EthernetII()); root->inner_pdu(v6); }
         }
